@@ -37,7 +37,7 @@ def int_to_str(t):
 
 
 class Frame:
-    __slots__ = ("loc", "rel", "cls", "func", "contract", "loop_ord", "ghost_before", "ghost_after", "fname", "unbound_locals", "narrow")
+    __slots__ = ("loc", "rel", "cls", "func", "contract", "loop_ord", "ghost_before", "ghost_after", "fname", "unbound_locals", "narrow", "auto_inline")
 
 
 class Verifier(Engine):
@@ -66,6 +66,10 @@ class Verifier(Engine):
             return mk_str(v)
         if isinstance(v, bytes):
             return V(T.BYTES, self.bytes_const(v))
+        if isinstance(v, float):
+            # floats are an uninterpreted sort: a literal is just a name for some float (no arithmetic facts)
+            f = z3.Function("float_lit", z3.StringSort(), sort_of(T.FLOAT))
+            return V(T.FLOAT, f(z3.StringVal(repr(v))))
         raise Unsupported("constant %r" % (v,))
 
     def bytes_const(self, b):
@@ -421,6 +425,8 @@ class Verifier(Engine):
         h = getattr(self, "_assign_hint", None)
         if h is not None and h.kind in ("list", "deque", "set", "seq"):
             return h.elem
+        if getattr(self, "_in_call_args", 0) > 0:
+            return T.ANY           # `f(..., [], ...)`: a fresh empty list that is only handed to the callee
         raise Unsupported("cannot infer the element type of an empty literal (add a `locals` hint)")
 
     def ev_Set(self, n):
@@ -658,6 +664,12 @@ class Verifier(Engine):
             if isinstance(a, ast.Starred):
                 sv = self.ev(a.value)
                 args.append(("*", sv))
+            elif isinstance(a, ast.List) and not a.elts and getattr(self, "_assign_hint", None) is None:
+                self._in_call_args = getattr(self, "_in_call_args", 0) + 1
+                try:
+                    args.append(self.ev(a))
+                finally:
+                    self._in_call_args -= 1
             else:
                 args.append(self.ev(a))
         kwargs = {}
@@ -796,6 +808,8 @@ class Verifier(Engine):
             return V(T.INT, self.seq_len(v))
         if name == "str":
             return self.to_str(args[0]) if args else mk_str("")
+        if name == "repr" and len(args) == 1 and isinstance(args[0], V) and args[0].ty.kind in ("ref", "val"):
+            return self.call_bound(args[0], "__repr__", [], {}, node)       # repr(x) == x.__repr__() for a repository class
         if name == "int":
             v = args[0]
             if v.ty.kind in ("int", "bool", "enum"):
@@ -1223,7 +1237,13 @@ class Verifier(Engine):
         if con is None:
             con = self.reg.contract_for("ext", ".".join(qualname.split(".")[-2:]))
         if con is None:
-            raise Unsupported("no contract for %s::%s (and not inlinable)" % (rel, qualname))
+            # a repository function without any contract (typically a helper extracted by a refactoring): its real
+            # body is executed in place -- exact, hence sound; loops inside it have no invariant and stay Unsupported
+            try:
+                fdef = fdef or self.repo.function(rel, qualname)
+            except SourceError:
+                raise Unsupported("no contract for %s::%s (and not inlinable)" % (rel, qualname))
+            return self.inline_call(rel, qualname, fdef, selfv, args, kwargs, clsval, auto=True)
         return self.apply_contract(con, selfv, args, kwargs, clsval=clsval)
 
     def bind_args(self, fdef, selfv, args, kwargs, clsval=None):
@@ -1263,7 +1283,7 @@ class Verifier(Engine):
                 env[a.arg] = self.ev(d)
         return env
 
-    def inline_call(self, rel, qualname, fdef, selfv, args, kwargs, clsval=None):
+    def inline_call(self, rel, qualname, fdef, selfv, args, kwargs, clsval=None, auto=False):
         if self.call_depth > 12:
             raise Unsupported("inline depth exceeded at %s" % qualname)
         env = self.bind_args(fdef, selfv, args, kwargs, clsval)
@@ -1276,6 +1296,7 @@ class Verifier(Engine):
         fr.unbound_locals = self._assigned_locals(fdef) - set(env)
         fr.ghost_before, fr.ghost_after = {}, {}
         fr.narrow = None
+        fr.auto_inline = auto or getattr(saved_frame, "auto_inline", False)
         self.frame = fr
         self.st.loc = env
         self.call_depth += 1
